@@ -151,6 +151,8 @@ def breakdown(res):
 def scan_assumptions(g):
     found = []
     for i, ln in enumerate(g.lines):
+        if "// proved-in-unit" in ln:
+            continue
         code = ln.split("//")[0]
         m = ASSUME_PAT.search(code)
         if m:
@@ -229,7 +231,7 @@ def check_unit(unit, tier="quick", vacuity=True):
         vac["vacuous"] = sorted(set(marks.values()) - hit)
         vac["wall"] = vres["wall"]
     return {
-        "unit": unit, "gen": g, "path": path, "res": res, "fails": fails, "breakdown": bd,
+        "unit": unit, "gen": g, "stub_units": g.stub_units, "path": path, "res": res, "fails": fails, "breakdown": bd,
         "verified": vr.get("verified", 0), "errors": vr.get("errors", 0),
         "missing_fns": missing, "vacuity": vac, "assumptions": scan_assumptions(g),
         "smt_ms": sum(b["ms"] for b in bd), "wall": res["wall"],
